@@ -407,3 +407,77 @@ func (g *Grammar) StateReachable(from []string) bool {
 	}
 	return found
 }
+
+// InlineLabelClash is the matcher of the run-time face of KF-C04-OPTSCOPE: -optimize-grammar
+// inlines a rule R into a rule S without giving R's labels a frame of their own. Where R's
+// labels land in a frame of S that already binds the same name, the builder normally emits a
+// duplicate parameter (the generated file does not compile - the face C04 records). Under a
+// recovery operator the builder opens a parameter scope of its own but the runtime does not
+// push a frame: the file compiles and R's binding silently replaces S's for every later code
+// block of S. The predicate: some rule S contains a recovery operator from which a rule
+// reference is reachable through sequences, actions and recovery operators only, and the
+// referenced rule (transitively, by the same path rule) binds, in its top frame, a label name
+// that also occurs in S.
+func (g *Grammar) InlineLabelClash() bool {
+	var topLabels func(e *Expr, depth int, out map[string]bool)
+	topLabels = func(e *Expr, depth int, out map[string]bool) {
+		if depth > 12 {
+			return
+		}
+		switch e.K {
+		case KLabel:
+			out[e.Name] = true
+		case KSeq, KAction, KRecover:
+			for _, s := range e.Sub {
+				topLabels(s, depth+1, out)
+			}
+		case KRef:
+			if r := g.Rule(e.Name); r != nil {
+				topLabels(r.Expr, depth+1, out)
+			}
+		}
+	}
+	var refsAtTop func(e *Expr, out *[]*Expr)
+	refsAtTop = func(e *Expr, out *[]*Expr) {
+		switch e.K {
+		case KRef:
+			*out = append(*out, e)
+		case KSeq, KAction, KRecover:
+			for _, s := range e.Sub {
+				refsAtTop(s, out)
+			}
+		}
+	}
+	for _, r := range g.Rules {
+		names := map[string]bool{}
+		Walk(r.Expr, func(e *Expr) {
+			if e.K == KLabel {
+				names[e.Name] = true
+			}
+		})
+		if len(names) == 0 {
+			continue
+		}
+		clash := false
+		Walk(r.Expr, func(e *Expr) {
+			if e.K != KRecover || clash {
+				return
+			}
+			var refs []*Expr
+			refsAtTop(e, &refs)
+			for _, ref := range refs {
+				tl := map[string]bool{}
+				topLabels(ref, 0, tl)
+				for n := range tl {
+					if names[n] {
+						clash = true
+					}
+				}
+			}
+		})
+		if clash {
+			return true
+		}
+	}
+	return false
+}
